@@ -22,7 +22,7 @@ import (
 
 func TestMain(m *testing.M) {
 	go watchdog()
-	h.Main(m, selfTestDER)
+	h.Main(m, selfTestDER, selfTestLayered)
 }
 
 // hcase is one hostile input for one entry point.
@@ -173,7 +173,7 @@ func checkHostile(c hcase, r *h.Rec) error {
 		r.Label("past-outer-parse")
 		r.Label("deep:" + t.group)
 	}
-	structural := strings.HasPrefix(c.Kind, "der") || c.Kind == "tiny" || c.Kind == "seed"
+	structural := strings.HasPrefix(c.Kind, "der") || strings.HasPrefix(c.Kind, "layer") || c.Kind == "tiny" || c.Kind == "seed"
 	r.NTIf(depth > 0 || structural)
 	if string(in) != string(c.In) {
 		return fmt.Errorf("%s modified its input bytes", c.T)
@@ -365,6 +365,19 @@ func TestC13_Ciphers(t *testing.T) {
 				derMutations(s, h.Thorough(), func(kind string, b []byte) { emit(hcase{tg.name, kind, b}) })
 			}
 		}
+	})
+}
+
+// TestC13_Layered: valid outer protection, hostile inner payload (layered_test.go).
+func TestC13_Layered(t *testing.T) {
+	run(t, "layered", func(emit func(hcase)) {
+		targets()
+		layeredCases(func(target, kind string, b []byte) {
+			if targetMap[target] == nil {
+				panic("layered: unknown target " + target)
+			}
+			emit(hcase{target, kind, b})
+		})
 	})
 }
 
